@@ -235,12 +235,14 @@ def satisfaction_algebra(vf):
             Clause("lock_is_one_of_the_inputs", ("C17",), "wkind(r.stack) != 2 ==> (r.relative_timelock == self.relative_timelock || r.relative_timelock == other.relative_timelock) && (r.absolute_timelock == self.absolute_timelock || r.absolute_timelock == other.absolute_timelock)"),
         ]))
         vf.fn(SAT, SATIMPL + "/fn:minimum", qual="Satisfaction", props=P, rewrites=[R3_WITNESS, R7_LT], contract=Contract(ensures=[
+            Clause("locks_travel_with_the_returned_stack", ("C17",), "(r.stack == sat1.stack && r.absolute_timelock == sat1.absolute_timelock && r.relative_timelock == sat1.relative_timelock) || (r.stack == sat2.stack && r.absolute_timelock == sat2.absolute_timelock && r.relative_timelock == sat2.relative_timelock) || (wkind(r.stack) == 1 && r.absolute_timelock is None && r.relative_timelock is None)"),
             Clause("nonmalleable_choice", ("C03",), "is_choice_nonmall(r, abs_sat(sat1), abs_sat(sat2))"),
             Clause("returns_one_of_them", ("C01", "C17"), "wkind(r.stack) == 0 ==> realises(r, abs_sat(sat1)) || realises(r, abs_sat(sat2))"),
             Clause("complete_when_signed", ("C02",), "(wkind(sat1.stack) == 0 && sat1.has_sig && (wkind(sat2.stack) == 2 || sat2.has_sig)) || (wkind(sat2.stack) == 0 && sat2.has_sig && (wkind(sat1.stack) == 2 || sat1.has_sig)) ==> wkind(r.stack) == 0 || (wkind(sat1.stack) == 1 && wkind(sat2.stack) == 1)"),
             Clause("impossible_only_if_both", ("C02", "C03"), "wkind(r.stack) == 2 <==> wkind(sat1.stack) == 2 && wkind(sat2.stack) == 2"),
         ]))
         vf.fn(SAT, SATIMPL + "/fn:minimum_mall", qual="Satisfaction", props=P, rewrites=[R3_WITNESS, R7_LT], contract=Contract(ensures=[
+            Clause("locks_travel_with_the_returned_stack", ("C17",), "(r.stack == sat1.stack && r.absolute_timelock == sat1.absolute_timelock && r.relative_timelock == sat1.relative_timelock) || (r.stack == sat2.stack && r.absolute_timelock == sat2.absolute_timelock && r.relative_timelock == sat2.relative_timelock) || (wkind(r.stack) == 1 && r.absolute_timelock is None && r.relative_timelock is None)"),
             Clause("malleable_choice", ("C01", "C02", "C17"), "is_choice_mall(r, abs_sat(sat1), abs_sat(sat2))"),
             Clause("impossible_only_if_both", ("C02",), "wkind(r.stack) == 2 ==> wkind(sat1.stack) != 0 && wkind(sat2.stack) != 0"),
         ]))
@@ -324,5 +326,178 @@ def leaves(vf):
             ]))
 
 
+STEP_SPEC = r"""
+// ---- per-node step of sat_dissat: children = the top `arity` entries of the stack (post-order: the
+// last child is on top) -------------------------------------------------------------------------------
+spec fn top<Pk: MiniscriptKey>(s: Seq<SatDissat<Pk>>, i: int) -> SatDissat<Pk> { s[s.len() - 1 - i] }
+spec fn arity<Pk: MiniscriptKey, Ctx: ScriptContext>(t: Terminal<Pk, Ctx>) -> nat {
+    match t {
+        Terminal::Alt(_) | Terminal::Swap(_) | Terminal::Check(_) | Terminal::DupIf(_) | Terminal::Verify(_)
+        | Terminal::NonZero(_) | Terminal::ZeroNotEqual(_) => 1,
+        Terminal::AndV(_, _) | Terminal::AndB(_, _) | Terminal::OrB(_, _) | Terminal::OrD(_, _) | Terminal::OrC(_, _) | Terminal::OrI(_, _) => 2,
+        Terminal::AndOr(_, _, _) => 3,
+        Terminal::Thresh(th) => th.spec_n(),
+        _ => 0,
+    }
+}
+spec fn ac<Pk: MiniscriptKey, Ctx: ScriptContext>(m: Arc<Miniscript<Pk, Ctx>>) -> ACorr { abs_corr(m.ty.corr) }
+spec fn cd<Pk: MiniscriptKey, Ctx: ScriptContext>(m: Arc<Miniscript<Pk, Ctx>>) -> bool { m.ty.corr.dissatisfiable }
+
+// the node is well typed (specification's "X is Bdu; Z is B" side conditions)
+spec fn node_typed<Pk: MiniscriptKey, Ctx: ScriptContext>(t: Terminal<Pk, Ctx>) -> bool {
+    &&& (t matches Terminal::AndOr(x, y, z) ==> spec_and_or_ok(ac(x), ac(y), ac(z)))
+    &&& (t matches Terminal::OrB(x, z) ==> spec_or_b_ok(ac(x), ac(z)))
+    &&& (t matches Terminal::OrC(x, z) ==> spec_or_c_ok(ac(x), ac(z)))
+    &&& (t matches Terminal::OrD(x, z) ==> spec_or_d_ok(ac(x), ac(z)))
+}
+// the specification's `d` for the node
+spec fn node_d<Pk: MiniscriptKey, Ctx: ScriptContext>(t: Terminal<Pk, Ctx>) -> bool {
+    match t {
+        Terminal::True => spec_corr_true().d,
+        Terminal::False => spec_corr_false().d,
+        Terminal::PkK(_) => spec_corr_pk_k().d,
+        Terminal::PkH(_) | Terminal::RawPkH(_) => spec_corr_pk_h().d,
+        Terminal::Multi(_) | Terminal::SortedMulti(_) => spec_corr_multi().d,
+        Terminal::MultiA(_) | Terminal::SortedMultiA(_) => spec_corr_multi_a().d,
+        Terminal::After(_) | Terminal::Older(_) => spec_corr_time().d,
+        Terminal::Sha256(_) | Terminal::Hash256(_) | Terminal::Ripemd160(_) | Terminal::Hash160(_) => spec_corr_hash().d,
+        Terminal::Alt(x) => spec_alt(ac(x)).d,
+        Terminal::Swap(x) => spec_swap(ac(x)).d,
+        Terminal::Check(x) => spec_check(ac(x)).d,
+        Terminal::DupIf(x) => spec_dupif(ac(x), false).d,
+        Terminal::Verify(x) => spec_verify(ac(x)).d,
+        Terminal::NonZero(x) => spec_nonzero(ac(x)).d,
+        Terminal::ZeroNotEqual(x) => spec_zeronotequal(ac(x)).d,
+        Terminal::AndV(x, y) => spec_and_v(ac(x), ac(y)).d,
+        Terminal::AndB(x, y) => spec_and_b(ac(x), ac(y)).d,
+        Terminal::AndOr(x, y, z) => spec_and_or(ac(x), ac(y), ac(z)).d,
+        Terminal::OrB(x, z) => spec_or_b(ac(x), ac(z)).d,
+        Terminal::OrD(x, z) => spec_or_d(ac(x), ac(z)).d,
+        Terminal::OrC(x, z) => spec_or_c(ac(x), ac(z)).d,
+        Terminal::OrI(x, z) => spec_or_i(ac(x), ac(z)).d,
+        Terminal::Thresh(_) => true,
+    }
+}
+// a provider answers for ONE transaction: all absolute locks it confirms have one unit, likewise relative
+spec fn provider_consistent<Pk: MiniscriptKey, S: AssetProvider<Pk>>(stfr: &S) -> bool {
+    &&& (forall|a: u32, b: u32| #[trigger] stfr.after_ok(a) && #[trigger] stfr.after_ok(b) ==> ((a < 500_000_000) == (b < 500_000_000)))
+    &&& (forall|a: u32, b: u32| #[trigger] stfr.older_ok(a) && #[trigger] stfr.older_ok(b) ==> ((a & 0x0040_0000) == (b & 0x0040_0000)))
+}
+// every lock a (possible) satisfaction reports has been confirmed by the provider (sufficiency, C17)
+spec fn locks_confirmed<Pk: MiniscriptKey, S: AssetProvider<Pk>>(stfr: &S, s: Satisfaction<Placeholder<Pk>>) -> bool {
+    wkind(s.stack) != 2 ==> (s.absolute_timelock is Some ==> stfr.after_ok(s.absolute_timelock->Some_0.consensus()))
+                         && (s.relative_timelock is Some ==> stfr.older_ok(s.relative_timelock->Some_0.consensus()))
+}
+// invariant of one stack entry, given the `d` of the node it belongs to.
+//   malleable mode: a dissatisfiable node has a signature-free dissatisfaction (completeness, and the
+//   assert!s of the or_* arms);  non-malleable mode: it may be withheld (unavailable) but is never signed
+spec fn sd_inv<Pk: MiniscriptKey, S: AssetProvider<Pk>>(stfr: &S, malleable: bool, d: bool, sd: SatDissat<Pk>) -> bool {
+    &&& locks_confirmed(stfr, sd.sat)
+    &&& locks_confirmed(stfr, sd.dissat)
+    &&& (d ==> !sd.dissat.has_sig && (if malleable { wkind(sd.dissat.stack) == 0 } else { wkind(sd.dissat.stack) != 2 }))
+}
+spec fn children_inv<Pk: MiniscriptKey, Ctx: ScriptContext, S: AssetProvider<Pk>>(stfr: &S, malleable: bool, t: Terminal<Pk, Ctx>, s: Seq<SatDissat<Pk>>) -> bool {
+    &&& (t matches Terminal::Alt(x) ==> sd_inv(stfr, malleable, cd(x), top(s, 0)))
+    &&& (t matches Terminal::Swap(x) ==> sd_inv(stfr, malleable, cd(x), top(s, 0)))
+    &&& (t matches Terminal::Check(x) ==> sd_inv(stfr, malleable, cd(x), top(s, 0)))
+    &&& (t matches Terminal::DupIf(x) ==> sd_inv(stfr, malleable, cd(x), top(s, 0)))
+    &&& (t matches Terminal::Verify(x) ==> sd_inv(stfr, malleable, cd(x), top(s, 0)))
+    &&& (t matches Terminal::NonZero(x) ==> sd_inv(stfr, malleable, cd(x), top(s, 0)))
+    &&& (t matches Terminal::ZeroNotEqual(x) ==> sd_inv(stfr, malleable, cd(x), top(s, 0)))
+    &&& (t matches Terminal::AndV(x, y) ==> sd_inv(stfr, malleable, cd(x), top(s, 1)) && sd_inv(stfr, malleable, cd(y), top(s, 0)))
+    &&& (t matches Terminal::AndB(x, y) ==> sd_inv(stfr, malleable, cd(x), top(s, 1)) && sd_inv(stfr, malleable, cd(y), top(s, 0)))
+    &&& (t matches Terminal::OrB(x, y) ==> sd_inv(stfr, malleable, cd(x), top(s, 1)) && sd_inv(stfr, malleable, cd(y), top(s, 0)))
+    &&& (t matches Terminal::OrD(x, y) ==> sd_inv(stfr, malleable, cd(x), top(s, 1)) && sd_inv(stfr, malleable, cd(y), top(s, 0)))
+    &&& (t matches Terminal::OrC(x, y) ==> sd_inv(stfr, malleable, cd(x), top(s, 1)) && sd_inv(stfr, malleable, cd(y), top(s, 0)))
+    &&& (t matches Terminal::OrI(x, y) ==> sd_inv(stfr, malleable, cd(x), top(s, 1)) && sd_inv(stfr, malleable, cd(y), top(s, 0)))
+    &&& (t matches Terminal::AndOr(x, y, z) ==> sd_inv(stfr, malleable, cd(x), top(s, 2)) && sd_inv(stfr, malleable, cd(y), top(s, 1)) && sd_inv(stfr, malleable, cd(z), top(s, 0)))
+}
+spec fn a<Pk: MiniscriptKey>(s: Satisfaction<Placeholder<Pk>>) -> ASat<Pk> { abs_sat(s) }
+spec fn one<Pk: MiniscriptKey>() -> Placeholder<Pk> { Placeholder::PushOne }
+spec fn zero<Pk: MiniscriptKey>() -> Placeholder<Pk> { Placeholder::PushZero }
+// "A ; B" of a row, in the mode of this instance
+spec fn is_choice<Pk: MiniscriptKey>(malleable: bool, r: Satisfaction<Placeholder<Pk>>, x: ASat<Pk>, y: ASat<Pk>) -> bool {
+    if malleable { is_choice_mall(r, x, y) } else { is_choice_nonmall(r, x, y) }
+}
+
+#[verifier::external_body]
+fn excluded_arm<Pk: MiniscriptKey>() -> SatDissat<Pk> { unimplemented!() }
+// derived Clone returns an equal value (assumption; Verus gives derived non-Copy Clone impls no spec)
+#[verifier::external_body]
+fn sat_clone<Pk: MiniscriptKey>(s: &Satisfaction<Placeholder<Pk>>) -> (r: Satisfaction<Placeholder<Pk>>) ensures r == *s { unimplemented!() }
+"""
+
+
+def step_cases(mall):
+    """One case per Terminal variant: the specification's row.  X/L = first child, Y/Z/R = second, ..."""
+    M = "true" if mall else "false"
+    S0 = "old(stack)@"
+    X = "top(%s, 0)" % S0
+    L, R = "top(%s, 1)" % S0, "top(%s, 0)" % S0
+    A, B, C = "top(%s, 2)" % S0, "top(%s, 1)" % S0, "top(%s, 0)" % S0
+    P12 = ("C01", "C02")
+    ALL = ("C01", "C02", "C03", "C17")
+    sel = ("C01", "C02", "C17") if mall else ("C01", "C03", "C17")
+    inv = lambda v: Clause("dissat_available_when_d", ("C02", "C03", "C11"), "sd_inv(stfr, %s, node_d(*term), r)" % M)
+    out = []
+
+    def case(v, clauses, claim_inv=True):
+        out.append((v, "*term is %s" % v, clauses + ([inv(v)] if claim_inv else [])))
+    case("False", [Clause("row", ALL, "same(r.dissat, t_elems(Seq::empty())) && wkind(r.sat.stack) == 2")])
+    case("True", [Clause("row", ALL, "wkind(r.dissat.stack) == 2 && same(r.sat, t_elems(Seq::empty()))")])
+    case("PkK", [Clause("row", ALL, "*term matches Terminal::PkK(pk) ==> same(r.dissat, t_elems(seq![zero()])) && (wkind(r.sat.stack) == 0 <==> sig_available(stfr, &pk, leaf_hash)) && (wkind(r.sat.stack) != 0 ==> wkind(r.sat.stack) == 2) && (wkind(r.sat.stack) == 0 ==> wseq(r.sat.stack).len() == 1 && is_sig_elem(wseq(r.sat.stack)[0], stfr, &pk, leaf_hash)) && r.sat.has_sig && no_locks(r.sat)")])
+    case("PkH", [Clause("row", ALL, "*term matches Terminal::PkH(pk) ==> wkind(r.dissat.stack) == 0 && wseq(r.dissat.stack).len() == 2 && wseq(r.dissat.stack)[0] == zero::<Pk>() && is_pubkey_elem(wseq(r.dissat.stack)[1], pk, Ctx::spec_pk_len(&pk)) && (wkind(r.sat.stack) == 0 <==> sig_available(stfr, &pk, leaf_hash)) && (wkind(r.sat.stack) != 0 ==> wkind(r.sat.stack) == 2) && (wkind(r.sat.stack) == 0 ==> wseq(r.sat.stack).len() == 2 && is_sig_elem(wseq(r.sat.stack)[0], stfr, &pk, leaf_hash) && is_pubkey_elem(wseq(r.sat.stack)[1], pk, Ctx::spec_pk_len(&pk))) && r.sat.has_sig && no_locks(r.sat)")])
+    case("After", [Clause("row", ALL, "*term matches Terminal::After(t) ==> wkind(r.dissat.stack) == 2 && (wkind(r.sat.stack) == 0 <==> stfr.after_ok(t.consensus())) && (wkind(r.sat.stack) == 0 ==> wseq(r.sat.stack).len() == 0 && r.sat.absolute_timelock == Some(t) && r.sat.relative_timelock is None && !r.sat.has_sig) && (wkind(r.sat.stack) != 0 ==> wkind(r.sat.stack) == (if root_has_sig { 2int } else { 1int }))")])
+    case("Older", [Clause("row", ALL, "*term matches Terminal::Older(t) ==> wkind(r.dissat.stack) == 2 && (wkind(r.sat.stack) == 0 <==> stfr.older_ok(t.consensus())) && (wkind(r.sat.stack) == 0 ==> wseq(r.sat.stack).len() == 0 && r.sat.relative_timelock == Some(t) && r.sat.absolute_timelock is None && !r.sat.has_sig) && (wkind(r.sat.stack) != 0 ==> wkind(r.sat.stack) == (if root_has_sig { 2int } else { 1int }))")])
+    for v, h in (("Ripemd160", "ripemd160"), ("Hash160", "hash160"), ("Sha256", "sha256"), ("Hash256", "hash256")):
+        case(v, [Clause("row", ALL, "*term matches Terminal::%s(h) ==> same(r.dissat, t_elems(seq![Placeholder::<Pk>::HashDissatisfaction])) && (wkind(r.sat.stack) == 0 <==> stfr.knows_%s(&h)) && (wkind(r.sat.stack) != 0 ==> wkind(r.sat.stack) == 1) && (wkind(r.sat.stack) == 0 ==> wseq(r.sat.stack).len() == 1 && (wseq(r.sat.stack)[0] matches Placeholder::%sPreimage(x) && cloned(h, x))) && no_locks_no_sig(r.sat)" % (v, h, v))])
+    for v in ("Alt", "Swap", "Check", "ZeroNotEqual"):
+        case(v, [Clause("row_identity", ALL, "r.sat == %s.sat && r.dissat == %s.dissat" % (X, X))])
+    case("DupIf", [Clause("dsat_is_zero", P12, "same(r.dissat, t_elems(seq![zero()]))"),
+                   Clause("sat_is_sat_x_then_one", ALL, "a(r.sat) == t_then(a(%s.sat), one())" % X)])
+    case("Verify", [Clause("no_dsat", ("C01", "C03"), "wkind(r.dissat.stack) == 2"), Clause("sat_is_sat_x", ALL, "r.sat == %s.sat" % X)])
+    # j:X  -- dsat is "0": finding F1 lives here
+    case("NonZero", [Clause("dsat_is_zero", P12, "same(r.dissat, t_elems(seq![zero()]))"), Clause("sat_is_sat_x", ALL, "r.sat == %s.sat" % X)])
+    case("AndB", [Clause("dsat_is_dsat_y_dsat_x", ALL, "a(r.dissat) == t_seq(a(%s.dissat), a(%s.dissat))" % (R, L)),
+                  Clause("sat_is_sat_y_sat_x", ALL, "a(r.sat) == t_seq(a(%s.sat), a(%s.sat))" % (R, L))])
+    case("AndV", [Clause("dsat_none_or_noncanonical_dsat_y_sat_x", ("C01", "C17"), "wkind(r.dissat.stack) == 0 ==> a(r.dissat) == t_seq(a(%s.dissat), a(%s.sat))" % (R, L)),
+                  Clause("sat_is_sat_y_sat_x", ALL, "a(r.sat) == t_seq(a(%s.sat), a(%s.sat))" % (R, L))])
+    case("AndOr", [Clause("dsat_is_dsat_z_dsat_x", ALL, "a(r.dissat) == t_seq(a(%s.dissat), a(%s.dissat))" % (C, A)),
+                   Clause("sat_is_sat_y_sat_x_or_sat_z_dsat_x", sel, "is_choice(%s, r.sat, t_seq(a(%s.sat), a(%s.sat)), t_seq(a(%s.sat), a(%s.dissat)))" % (M, B, A, C, A))])
+    case("OrB", [Clause("dsat_is_dsat_z_dsat_x", ALL, "a(r.dissat) == t_seq(a(%s.dissat), a(%s.dissat))" % (R, L)),
+                 Clause("sat_is_sat_z_dsat_x_or_dsat_z_sat_x", sel, "is_choice(%s, r.sat, t_seq(a(%s.sat), a(%s.dissat)), t_seq(a(%s.dissat), a(%s.sat)))" % (M, R, L, R, L))])
+    case("OrC", [Clause("no_dsat", ("C01", "C03"), "wkind(r.dissat.stack) == 2"),
+                 Clause("sat_is_sat_x_or_sat_z_dsat_x", sel, "is_choice(%s, r.sat, a(%s.sat), t_seq(a(%s.sat), a(%s.dissat)))" % (M, L, R, L))])
+    case("OrD", [Clause("dsat_is_dsat_z_dsat_x", ALL, "a(r.dissat) == t_seq(a(%s.dissat), a(%s.dissat))" % (R, L)),
+                 Clause("sat_is_sat_x_or_sat_z_dsat_x", sel, "is_choice(%s, r.sat, a(%s.sat), t_seq(a(%s.sat), a(%s.dissat)))" % (M, L, R, L))])
+    case("OrI", [Clause("dsat_is_dsat_x_1_or_dsat_z_0", sel, "is_choice(%s, r.dissat, t_then(a(%s.dissat), one()), t_then(a(%s.dissat), zero()))" % (M, L, R)),
+                 Clause("sat_is_sat_x_1_or_sat_z_0", sel, "is_choice(%s, r.sat, t_then(a(%s.sat), one()), t_then(a(%s.sat), zero()))" % (M, L, R))])
+    for v in ("RawPkH", "Multi", "SortedMulti", "MultiA", "SortedMultiA", "Thresh"):
+        out.append((v, "*term is %s" % v, []))
+    return out
+
+
 def steps(vf):
-    pass
+    from units import c05_types as T
+    vf.raw(re.sub(r"#\[derive\([^)]*\)\]\n", "", T.oracle_text()))
+    vf.raw(T.ABS)
+    vf.trust("PartialEqSpecImpl for Base/Input/Dissat", "derived PartialEq on field-less enums is structural equality")
+    vf.raw(STEP_SPEC)
+    vf.trust("excluded_arm (external_body)", "R9: arms RawPkH, Multi, SortedMulti, MultiA, SortedMultiA, Thresh of sat_dissat are not verified by Verus; nothing is assumed about their result")
+    vf.trust("sat_clone (external_body)", "R13: `x.clone()` on a Satisfaction (derived Clone) returns a value equal to x")
+    vf.trust("provider_consistent (precondition)", "an AssetProvider answers for one transaction: the absolute (relative) locks it confirms all have the same unit")
+    P = ("C01", "C02", "C03", "C17", "C11")
+    excl = {k: "excluded_arm()" for k in ("Terminal::RawPkH", "Terminal::Multi(", "Terminal::SortedMulti(", "Terminal::MultiA(", "Terminal::SortedMultiA(", "Terminal::Thresh(")}
+    with vf.block("impl<Pk: MiniscriptKey + ToPublicKey> Satisfaction<Placeholder<Pk>>"):
+        for mall, name, minfn in ((True, "sat_dissat_step_mall", "Self::minimum_mall"), (False, "sat_dissat_step_nonmall", "Self::minimum")):
+            M = "true" if mall else "false"
+            vf.step(SD, SATIMPL + "/fn:sat_dissat/match:*item.node.as_inner()", "Satisfaction::" + name,
+                    "fn %s<Ctx: ScriptContext, Sat: AssetProvider<Pk>>(term: &Terminal<Pk, Ctx>, stack: &mut Vec<SatDissat<Pk>>, stfr: &Sat, root_has_sig: bool, leaf_hash: Option<TapLeafHash>) -> SatDissat<Pk>" % name,
+                    scrutinee="*term", exclude=excl, props=P,
+                    rewrites=[sub("R6", r"\bmin_fn\(", minfn + "("), const_as_fn("TRIVIAL"),
+                              sub("R13-derived-clone", r"\b([lrabc]_(?:sat|dis))\.clone\(\)", r"sat_clone(&\1)")],
+                    contract=Contract(
+                        requires=["old(stack)@.len() >= arity(*term)", "node_typed(*term)", "provider_consistent(stfr)",
+                                  "children_inv(stfr, %s, *term, old(stack)@)" % M],
+                        ensures=[Clause("frame_pops_exactly_the_children", ("C01", "C11"), "!(*term is Thresh) ==> final(stack)@ == old(stack)@.take(old(stack)@.len() - arity(*term))")]),
+                    cases=step_cases(mall))
